@@ -121,6 +121,17 @@ def designed_histories():
                         ops=[G("tracer"), G("alpha")]
                         + [G(f) for f in FILL] + [G("tracer"), G("gtt"),
                                                   G("Ktrace"), G("tracer")]))
+    # momentum-constraint components supplied as inputs (simulation
+    # output): the vector forms are assembled from them
+    mo = dict(base, extra_inputs=["momentum"])
+    for ce in (30, 2):
+        out.append(dict(cfg=dict(mo, clear_every=ce),
+                        ops=[G("Momentumup3"), G("Momentumdown3"),
+                             G("Momentumx"), G("Momentumdownx"),
+                             G("Momentumx_norm"), G("Momentum_Escale")]
+                        + [G(f) for f in FILL[:4]]
+                        + [G("Momentumdown3"), G("Momentumup3"),
+                           G("Momentumz_norm")]))
     sts = dict(op="helper", helper="s_to_st", ix="dd",
                field=dict(shape=[3, 3], const=None, modes=[dict(
                    A=[[0.5, 0.2, -0.3], [0.2, 0.4, 0.1], [-0.3, 0.1, 0.6]],
